@@ -291,71 +291,7 @@ func checkC17(R *Run) {
 			R.check(ok, "disconnect-effect", fname(h)+": Disconnect on every permitted path", pos, "every path from the passed tests to a return starts the target's Disconnect", "a path from the passed privilege/protection tests returns without disconnecting the target")
 		}
 	}
-	if d := R.mustFn("(*hotline.ClientConn).Disconnect"); d != nil {
-		R.analysed(fname(d))
-		recv := d.Params[0]
-		has := map[string]bool{}
-		var firstDelete, firstNotify ssa.Instruction
-		for _, ci := range callsIn(d) {
-			c := ci.Common()
-			switch calleeName(c) {
-			case "(hotline.ClientManager).Delete":
-				if f, ok := loadedField(c.Args[0]); ok && f == "hotline.ClientConn.ID" {
-					if ok2, _ := mustPassFromBlock(d.Blocks[0], func(i ssa.Instruction) bool { return i == ci.(ssa.Instruction) }); ok2 {
-						has["delete"] = true
-						firstDelete = ci
-					}
-				}
-			case "(*hotline.ClientConn).NotifyOthers":
-				if c.Args[0] == ssa.Value(recv) {
-					has["notify"] = true
-					firstNotify = ci
-					// the notification is TranNotifyDeleteUser carrying the user's ID
-					nt := callValue(c.Args[1])
-					if nt != nil && calleeName(&nt.Call) == "hotline.NewTransaction" {
-						if g, ok := globalName(nt.Call.Args[0]); ok && g == "hotline.TranNotifyDeleteUser" {
-							has["notify-type"] = true
-						}
-						for _, a := range callArgsFlat(&nt.Call)[2:] {
-							if nf := callValue(a); nf != nil && calleeName(&nf.Call) == "hotline.NewField" {
-								g, _ := globalName(nf.Call.Args[0])
-								src := stripRecv(P.sym(nf.Call.Args[1]))
-								if g == "hotline.FieldUserID" && strings.Contains(src, "hotline.ClientConn.ID") {
-									has["notify-id"] = true
-								}
-							}
-						}
-					}
-				}
-			default:
-				if c.IsInvoke() && c.Method.Name() == "Close" {
-					if f, ok := loadedField(c.Value); ok && f == "hotline.ClientConn.Connection" {
-						if ok2, _ := mustPassFromBlock(d.Blocks[0], func(i ssa.Instruction) bool { return i == ci.(ssa.Instruction) }); ok2 {
-							has["close"] = true
-						}
-					}
-				}
-			}
-		}
-		eachInstr(d, func(ins ssa.Instruction) {
-			if s, ok := ins.(*ssa.Send); ok {
-				if f, ok := loadedField(s.Chan); ok && f == "hotline.Server.outbox" {
-					has["send"] = true
-				}
-			}
-		})
-		order := firstDelete != nil && firstNotify != nil && instrDominates(firstDelete, firstNotify)
-		var missing []string
-		for _, k := range []string{"delete", "notify", "notify-type", "notify-id", "send", "close"} {
-			if !has[k] {
-				missing = append(missing, k)
-			}
-		}
-		if !order {
-			missing = append(missing, "registry removal before the notification")
-		}
-		R.check(len(missing) == 0, "disconnect-effect", fname(d), P.pos(d.Pos()), "removes the registry entry, then notifies the others (302 with the user's ID) and closes the connection on every path", "Disconnect lacks: "+strings.Join(missing, ", "))
-	}
+	R.ruleDisconnectShape("disconnect-effect")
 	R.floor("disconnect-effect", 2)
 
 	// ---- ban-persist
@@ -580,3 +516,82 @@ func paramStoredInField(P *Prog, fn *ssa.Function, idx int, field string, depth 
 }
 
 func init() { register("C17", checkC17) }
+
+// ruleDisconnectShape: Disconnect removes the registry entry, then notifies the others (302 with the user's ID)
+// on every path and closes the connection.
+func (R *Run) ruleDisconnectShape(rule string) {
+	P := R.P
+	if d := R.mustFn("(*hotline.ClientConn).Disconnect"); d != nil {
+		R.analysed(fname(d))
+		recv := d.Params[0]
+		has := map[string]bool{}
+		var firstDelete, firstNotify ssa.Instruction
+		for _, ci := range callsIn(d) {
+			c := ci.Common()
+			switch calleeName(c) {
+			case "(hotline.ClientManager).Delete":
+				if f, ok := loadedField(c.Args[0]); ok && f == "hotline.ClientConn.ID" {
+					if ok2, _ := mustPassFromBlock(d.Blocks[0], func(i ssa.Instruction) bool { return i == ci.(ssa.Instruction) }); ok2 {
+						has["delete"] = true
+						firstDelete = ci
+					}
+				}
+			case "(*hotline.ClientConn).NotifyOthers":
+				if c.Args[0] == ssa.Value(recv) {
+					has["notify"] = true
+					firstNotify = ci
+					// the notification is TranNotifyDeleteUser carrying the user's ID
+					nt := callValue(c.Args[1])
+					if nt != nil && calleeName(&nt.Call) == "hotline.NewTransaction" {
+						if g, ok := globalName(nt.Call.Args[0]); ok && g == "hotline.TranNotifyDeleteUser" {
+							has["notify-type"] = true
+						}
+						for _, a := range callArgsFlat(&nt.Call)[2:] {
+							if nf := callValue(a); nf != nil && calleeName(&nf.Call) == "hotline.NewField" {
+								g, _ := globalName(nf.Call.Args[0])
+								src := stripRecv(P.sym(nf.Call.Args[1]))
+								if g == "hotline.FieldUserID" && strings.Contains(src, "hotline.ClientConn.ID") {
+									has["notify-id"] = true
+								}
+							}
+						}
+					}
+				}
+			default:
+				if c.IsInvoke() && c.Method.Name() == "Close" {
+					if f, ok := loadedField(c.Value); ok && f == "hotline.ClientConn.Connection" {
+						if ok2, _ := mustPassFromBlock(d.Blocks[0], func(i ssa.Instruction) bool { return i == ci.(ssa.Instruction) }); ok2 {
+							has["close"] = true
+						}
+					}
+				}
+			}
+		}
+		eachInstr(d, func(ins ssa.Instruction) {
+			if s, ok := ins.(*ssa.Send); ok {
+				if f, ok := loadedField(s.Chan); ok && f == "hotline.Server.outbox" {
+					has["send"] = true
+				}
+			}
+		})
+		if firstNotify != nil {
+			if every, _ := mustPassFromBlock(d.Blocks[0], func(i ssa.Instruction) bool { return i == firstNotify }); !every {
+				delete(has, "notify")
+			}
+		}
+		order := firstDelete != nil && firstNotify != nil && instrDominates(firstDelete, firstNotify)
+		var missing []string
+		for _, k := range []string{"delete", "notify", "notify-type", "notify-id", "send", "close"} {
+			if !has[k] {
+				if k == "notify" {
+					k = "user-left notice on every path (it is skipped on some)"
+				}
+				missing = append(missing, k)
+			}
+		}
+		if !order {
+			missing = append(missing, "registry removal before the notification")
+		}
+		R.check(len(missing) == 0, rule, fname(d), P.pos(d.Pos()), "removes the registry entry, then notifies the others (302 with the user's ID) and closes the connection on every path", "Disconnect lacks: "+strings.Join(missing, ", "))
+	}
+}
